@@ -372,15 +372,15 @@ pub fn oracle_c05(scn: &Scenario, t: &Trace, st: &mut ExploreStats) -> Vec<Viola
             if name == "Tick" && t.fault.is_none() {
                 st.count("reidle_windows_checked");
                 let mut j = i + 1;
-                let mut wrote_idle = false;
+                // (a transport with short writes takes the line in several pieces)
+                let mut written: Vec<u8> = Vec::new();
                 while j < t.log.len() && !matches!(t.log[j], Obs::Ev { .. } | Obs::Drain) {
                     if let Obs::Write(b) = &t.log[j] {
-                        if b == b"idle\n" {
-                            wrote_idle = true;
-                        }
+                        written.extend_from_slice(b);
                     }
                     j += 1;
                 }
+                let wrote_idle = written == b"idle\n";
                 if !wrote_idle {
                     out.push(Violation::new("C05/no-reidle-after-tick", format!("100 ms after a reply with no further request the client did not write idle (drain: {drain_seen}; choices {:?})", t.choice_names()), Value::Null));
                 }
@@ -613,6 +613,12 @@ pub fn micro_ticks(_tier: Tier) -> Scenario {
     s
 }
 
+pub fn with_short_writes(mut s: Scenario, chunk: usize) -> Scenario {
+    s.name = format!("{}+short-writes-{chunk}", s.name);
+    s.write_chunk = Some(chunk);
+    s
+}
+
 pub fn with_dropped_events(mut s: Scenario) -> Scenario {
     s.name = format!("{}+events-receiver-dropped", s.name);
     s.drop_events_rx = true;
@@ -697,7 +703,9 @@ pub fn find_scenario_any(name: &str) -> Option<Scenario> {
 fn find_scenario(name: &str, tier: Tier) -> Option<Scenario> {
     let mut all = vec![s1(tier), s1p(tier), s2(tier), s3(tier), micro(tier), micro2(tier), s4(tier), micro_fault(tier), s5(tier), micro_ticks(tier)];
     let dropped: Vec<Scenario> = all.iter().cloned().map(with_dropped_events).collect();
+    let short: Vec<Scenario> = all.iter().cloned().flat_map(|s| [with_short_writes(s.clone(), 1), with_short_writes(s.clone(), 3), with_short_writes(s, 7)]).collect();
     all.extend(dropped);
+    all.extend(short);
     all.into_iter().find(|s| s.name == name)
 }
 
@@ -736,6 +744,7 @@ pub fn run_c01(tier: Tier) -> i32 {
         Plan { scn: s2(tier), bound: b },
         Plan { scn: s5(tier), bound: tier.pick(3, 4) },
         Plan { scn: with_dropped_events(s1(tier)), bound: tier.pick(2, 3) },
+        Plan { scn: with_short_writes(s1(tier), 3), bound: tier.pick(2, 3) },
     ];
     let (cov, viol) = run_plans(
         &ctx,
@@ -783,6 +792,8 @@ pub fn run_c05(tier: Tier) -> i32 {
         Plan { scn: s3(tier), bound: tier.pick(4, 5) },
         Plan { scn: s5(tier), bound: tier.pick(3, 4) },
         Plan { scn: with_dropped_events(s3(tier)), bound: tier.pick(2, 3) },
+        Plan { scn: with_short_writes(s1(tier), 1), bound: tier.pick(2, 3) },
+        Plan { scn: with_short_writes(s3(tier), 7), bound: tier.pick(2, 3) },
     ];
     let (cov, viol) = run_plans(
         &ctx,
